@@ -622,8 +622,12 @@ def bfs(shard, part, explorer=execute, sub='sm'):
         part.extra[f'{sub}_nodes_expanded'] += len(frontier)
         frontier = nxt
         if not frontier:
-            part.extra[f'{sub}_shards_closed_before_depth_bound'] += 1      # every reachable canonical state expanded
+            part.extra[f'{sub}_shards_closed'] += 1      # every reachable canonical state has been expanded
+            part.notes.append(f'{sub} {shard["profile"]}/maxloops={shard["maxloops"]}: closure after histories of length '
+                              f'{depth + 1}, {len(seen)} canonical states')
             break
+    else:
+        part.caps.append(f'{sub} {shard["profile"]}/maxloops={shard["maxloops"]}: no closure within {shard["depth"]} operations')
     part.states += len(seen)
     return part
 
@@ -865,12 +869,18 @@ def check_status(world, ref, op, ctx, was_running, nended, stop_seq, allcalls):
 
 # ---------------------------------------------------------------------------------------------
 
+DEPTH = 40     # safety bound on the length of operation sequences; every shard reaches closure long before (measured)
+
+
 def bounds(tier):
+    """the BFS runs to *closure* of the canonical state graph (all operation sequences of any length, in particular any
+    number of requests issued at every cycle boundary while a cleanup sequence spans several cycles); `depth` is only a
+    safety bound - a shard that does not close before it reports a cap"""
     if tier == 'quick':
-        return dict(budget=2, depth=5, ops=('cycle', 'startA', 'startB', 'startAK', 'stop'),
-                    mbudget=2, mdepth=5)
-    return dict(budget=3, depth=6, ops=('cycle', 'startA', 'startB', 'startAK', 'startCK', 'stop'),
-                mbudget=3, mdepth=6)
+        return dict(budget=2, depth=DEPTH, ops=('cycle', 'startA', 'startB', 'startAK', 'stop'),
+                    mbudget=2, mdepth=DEPTH)
+    return dict(budget=3, depth=DEPTH, ops=('cycle', 'startA', 'startB', 'startAK', 'startCK', 'stop'),
+                mbudget=3, mdepth=DEPTH)
 
 
 MODULE_OPS = ('poll', 'startA', 'startBK', 'stop')
@@ -878,12 +888,12 @@ MODULE_OPS = ('poll', 'startA', 'startBK', 'stop')
 
 def sm_shards(tier):
     b = bounds(tier)
-    return [dict(profile=p, maxloops=ml, ops=b['ops'], depth=b['depth'], budget=b['budget'], first=op)
-            for p in PROFILES for ml in (10, 3) for op in b['ops']]
+    return [dict(profile=p, maxloops=ml, ops=b['ops'], depth=b['depth'], budget=b['budget'])
+            for p in PROFILES for ml in (10, 3)]
 
 
 def sm_shard_fn(shard):
-    """one shard = the sub-tree of histories below one first operation (disjoint), for one profile and maxloops"""
+    """one shard = one profile and maxloops, explored to closure"""
     part = core.Part()
     bfs(shard, part, execute, 'sm')
     return part
@@ -891,8 +901,8 @@ def sm_shard_fn(shard):
 
 def module_shards(tier):
     b = bounds(tier)
-    return [dict(profile=p, maxloops=10, ops=MODULE_OPS, depth=b['mdepth'], budget=b['mbudget'], first=op)
-            for p in PROFILES for op in MODULE_OPS]
+    return [dict(profile=p, maxloops=10, ops=MODULE_OPS, depth=b['mdepth'], budget=b['mbudget'])
+            for p in PROFILES]
 
 
 def module_shard_fn(shard):
@@ -910,18 +920,18 @@ def run(ctx):
         ctx.pmap(module_shard_fn, module_shards(ctx.tier), name='module_status')
     ctx.rule = (
         'enumeration: BFS over operation sequences on fresh real StateMachine objects (every execution replays its '
-        f'history), operations {list(b["ops"])} to depth {b["depth"]}, x state-function programs = profile '
-        f'{list(PROFILES)} x maxloops {{10, 3}} + <= {b["budget"]} non-default script entries (k-th call of A/B/C/L '
-        'returns Retry / a state / Finish / non-callable / raises; cleanup K returns None / a state / non-callable / '
-        'raises), the entries being chosen among the calls actually made (explore_deviations per operation); nodes '
-        'de-duplicated on (implementation state, reference state, remaining budget). module_status: the same on a real '
-        f'HasStates+Drivable module with operations {list(MODULE_OPS)} to depth {b["mdepth"]}, <= {b["mbudget"]} entries. '
+        f'history), operations {list(b["ops"])}, run to CLOSURE of the canonical state graph (= all operation sequences of '
+        f'any length; safety bound {DEPTH}), x state-function programs = profile {list(PROFILES)} x maxloops {{10, 3}} + <= '
+        f'{b["budget"]} non-default script entries (k-th call of A/B/C/L returns Retry / a state / Finish / non-callable / '
+        'raises; cleanup K returns None / a state / non-callable / raises), the entries being chosen among the calls '
+        'actually made (explore_deviations per operation); nodes de-duplicated on (implementation state, reference state, '
+        'remaining budget). module_status: the same on a real HasStates+Drivable module with operations '
+        f'{list(MODULE_OPS)}, to closure, <= {b["mbudget"]} entries. '
         'evaluations = executions (each replays a whole history); distinct_nontrivial = executions whose last operation '
         'did more than retry (finish, transition, interrupt, cleanup, failure); states = distinct canonical states per shard '
-        '(profile x maxloops x first operation), summed; '
-        'transitions = operations + scripted function calls executed')
-    ctx.coverage.update(bound_completed=f'depth {b["depth"]}, <= {b["budget"]} non-default script entries '
-                        f'(module: depth {b["mdepth"]}, <= {b["mbudget"]})',
+        '(profile x maxloops), summed; transitions = operations + scripted function calls executed')
+    ctx.coverage.update(bound_completed=f'closure of the state graph (all sequence lengths), <= {b["budget"]} non-default script '
+                        f'entries (module: closure, <= {b["mbudget"]})',
                         profiles=list(PROFILES))
     from vf.harness import c14conc
     c14conc.run_conc(ctx)       # start / stop from a second thread between any two steps of a cycle (schedx)
